@@ -39,7 +39,91 @@ fn read_class(data: &[u8], chunk: usize) -> String {
     }
 }
 
+const MARKER_DIR: &str = "/verif/target/c09-markers";
+
+fn marker(label: &str) {
+    if std::env::var("VMC_C09_CHILD").is_ok() {
+        let id = format!("{:?}", std::thread::current().id()).replace(|c: char| !c.is_ascii_alphanumeric(), "");
+        let _ = std::fs::write(format!("{MARKER_DIR}/{id}.txt"), label);
+    }
+}
+
+/// C09 feeds hostile streams to the reader; a reader that trusts a length field can abort the
+/// whole process on an impossible allocation, which no `catch_unwind` sees. The exploration
+/// therefore runs in a child process; if the child dies abnormally the streams that were in
+/// flight (one marker per thread) are re-read one prefix at a time in further children, and the
+/// abort is reported as a violation (the statement demands an error value).
 pub fn run(tier: Tier) -> i32 {
+    if std::env::var("VMC_C09_CHILD").is_ok() {
+        if let Ok(probe) = std::env::var("VMC_C09_PROBE") {
+            return run_inner(tier, Some(probe));
+        }
+        return run_inner(tier, None);
+    }
+    let exe = std::env::current_exe().expect("current_exe");
+    let _ = std::fs::remove_dir_all(MARKER_DIR);
+    let _ = std::fs::create_dir_all(MARKER_DIR);
+    let spawn = |probe: Option<&str>| -> Option<i32> {
+        let mut c = std::process::Command::new(&exe);
+        c.args(["check", "C09", tier.name()]).env("VMC_C09_CHILD", "1");
+        if let Some(p) = probe {
+            c.env("VMC_C09_PROBE", p).stdout(std::process::Stdio::null());
+        }
+        c.status().ok().and_then(|s| s.code())
+    };
+    match spawn(None) {
+        Some(c) if (0..=2).contains(&c) => return c,
+        _ => {}
+    }
+    // abnormal death: collect the markers and localise
+    let mut rep = Report::new("C09", tier);
+    let mut st = Stats::default();
+    let mut markers: Vec<String> = vec![];
+    if let Ok(rd) = std::fs::read_dir(MARKER_DIR) {
+        for e in rd.flatten() {
+            if let Ok(t) = std::fs::read_to_string(e.path()) {
+                markers.push(t);
+            }
+        }
+    }
+    markers.sort();
+    markers.dedup();
+    let mut located = vec![];
+    for m in &markers {
+        // block markers are "block <image idx> <mode> <start> <end> <image name>"
+        let f: Vec<&str> = m.splitn(6, ' ').collect();
+        if f.len() == 6 && f[0] == "block" {
+            let _ = std::fs::remove_dir_all(MARKER_DIR);
+            let _ = std::fs::create_dir_all(MARKER_DIR);
+            let code = spawn(Some(&format!("{} {} {} {}", f[1], f[2], f[3], f[4])));
+            if !matches!(code, Some(0)) {
+                // the probe child died as well: its last marker names the prefix
+                if let Ok(rd) = std::fs::read_dir(MARKER_DIR) {
+                    for e in rd.flatten() {
+                        if let Ok(t) = std::fs::read_to_string(e.path()) {
+                            located.push(format!("{t} of the image of {}", f[5]));
+                        }
+                    }
+                }
+            }
+        }
+    }
+    st.states += 1;
+    st.transitions += 1;
+    st.violation(Finding {
+        class: "process-abort-on-hostile-stream".into(),
+        what: format!(
+            "Dictionary::read killed the process (abort, e.g. an impossible allocation) instead of returning an error; streams in flight: {:?}; localised: {:?}; see /verif/target/stderr-C09.log",
+            markers, located
+        ),
+        replay: json!({"kind": "image_prefix_abort", "in_flight": markers, "localised": located}),
+    });
+    rep.rule = "the exploration child process died abnormally; in-flight streams re-read one prefix at a time in probe children".into();
+    rep.bounds = json!({});
+    rep.finish(st, &[])
+}
+
+fn run_inner(tier: Tier, probe: Option<String>) -> i32 {
     let mut rep = Report::new("C09", tier);
     let fams = family_d(tier);
     // images: each connector kind, plain and with user lexicon + mapper
@@ -130,6 +214,17 @@ pub fn run(tier: Tier) -> i32 {
             return 2;
         }
     }
+    if let Some(p) = probe {
+        let f: Vec<usize> = p.split(' ').filter_map(|x| x.parse().ok()).collect();
+        if f.len() == 4 && f[0] < images.len() {
+            let img = &images[f[0]].1;
+            for k in f[2]..f[3].min(img.len()) {
+                marker(&format!("prefix {k} (reader chunk {})", f[1]));
+                let _ = read_class(&img[..k], f[1]);
+            }
+        }
+        return 0;
+    }
     const BLOCK: usize = 2048;
     let mut tasks: Vec<(usize, usize, usize)> = vec![]; // (image, chunk mode, block start)
     for (ii, (_, img)) in images.iter().enumerate() {
@@ -155,6 +250,7 @@ pub fn run(tier: Tier) -> i32 {
         let (ii, mode, start) = tasks[ti];
         let (name, img) = &images[ii];
         let end = (start + BLOCK).min(img.len());
+        marker(&format!("block {ii} {mode} {start} {end} {name}"));
         for k in start..end {
             // strict prefix of length k
             st.states += 1;
@@ -190,6 +286,7 @@ pub fn run(tier: Tier) -> i32 {
                 st.states += 1;
                 st.transitions += 1;
                 st.count("magic_single_byte_substitutions");
+                marker(&format!("magic byte {pos} replaced by {rep_byte:#x} in the image of {name}"));
                 let mut v = img.clone();
                 v[pos] = rep_byte;
                 let c = read_class(&v, 0);
